@@ -73,3 +73,35 @@ def check_c07(tier, model=None):
     rep.assumptions = ["harness/extract_rust.py tokenises the generated Rust subset correctly; serde camelCase renaming and the Request->Response struct name derivation are part of the projection",
                        "no Rust dependencies are available offline: the crate is not compiled"]
     return rep
+
+
+def check_c08(tier, model=None):
+    rep = common.Reporter("C08", tier, "model_checking")
+    mpath = model or os.path.join(common.REPO, "generator", "lsp.json")
+    work = common.scratch("c08-")
+    obl, nfiles = {}, 0
+    try:
+        rc, log, out = generate("dotnet", work, model)
+        if rc != 0:
+            rep.violation({"clause": "D_plugin_failed"}, {"output": log})
+        else:
+            from . import extract_cs
+            img = extract_cs.parse_dir(os.path.join(out, "lsprotocol"))
+            doc = json.load(open(mpath))
+            img["private_names"] = [s["name"] for s in doc.get("structures", []) if s["name"].startswith("_")]
+            nfiles = img["files"]
+            ip = os.path.join(work, "cs-image.json")
+            json.dump(img, open(ip, "w"))
+            fails, _, obl = judge("DotnetImage", "CS_IMAGE", ip, mpath)
+            for f in fails:
+                rep.violation({"clause": f["c"], "pos": f["pos"]}, {"failure": f})
+            for d in img.get("duplicates", []):
+                rep.violation({"clause": "D_duplicate_definition", "pos": d}, {"name": d})
+    finally:
+        shutil.rmtree(work, ignore_errors=True)
+    rep.coverage.update({"states": 2, "transitions": 1, "traces_validated_against_impl": 1, "obligations": obl, "files_parsed": nfiles, "exhaustive": True,
+                         "rule": "the dotnet plugin is run from the working tree; every .cs file is projected (records, DataMember names, parsed type terms, nullability, NullValueHandling.Ignore, JsonConstructor assignments, enum members, LSPRequest/LSPResponse/Direction attributes, the LSPMethods table) and compared by DotnetImage.tla with the image computed from the metamodel",
+                         "samples": [{"record Position expected members": ["line: long", "character: long"]}]})
+    rep.assumptions = ["harness/extract_cs.py reads the generator's regular C# output line by line (one attribute per line, one property per line)",
+                       "no .NET SDK offline: sources are not compiled; nullable / null-ignoring are not asserted for ImmutableArray / ImmutableDictionary members; internal structures (name starting with '_') need no class of their own"]
+    return rep
